@@ -14,7 +14,7 @@ def enc_len(n, form=None):
         if n < 65536:
             return bytes([0x82, n >> 8, n & 0xFF])
         return bytes([0x83, n >> 16, (n >> 8) & 0xFF, n & 0xFF])
-    k = int(form[4:])
+    k = max(int(form[4:]), (n.bit_length() + 7) // 8 or 1)        # at least as many octets as the value needs
     return bytes([0x80 | k]) + n.to_bytes(k, "big")
 
 
